@@ -49,6 +49,11 @@ class World:
         self.D1b = (M.CongestedDestination if rng.random() < 0.7 else M.Destination)(name="D1b")
         self.D2 = M.Destination(name="D2")
         self.D2b = M.CongestedDestination(name=("O1" if rng.random() < 0.3 else "D2b"))
+        # a user-defined destination kind that owns a state (README "Extensions"); only the public
+        # element-level step advances it
+        from vf import userkinds as UK
+
+        self.D1u = UK.BufferedDestination(name="D1u")
         self.net = M.Network().add_path((self.N[0], self.L1, self.N[1], self.L2, self.N[2], self.L0, self.N[5]),
                                         origin=self.O1, destination=self.D1)
         # model
@@ -88,8 +93,8 @@ class World:
                         deps += [G_.pred[u][p]["link"] for p in G_.pred[u]]
                         if "origin" in G_.nodes[u]:
                             deps.append(G_.nodes[u]["origin"])
-                        if "destination" in G_.nodes[w]:
-                            deps.append(G_.nodes[w]["destination"])
+                        if "destination" in G_.nodes[w] and isinstance(G_.nodes[w]["destination"], M.CongestedDestination):
+                            deps.append(G_.nodes[w]["destination"])  # the only kind whose variable a link reads
                         else:
                             deps += [G_.succ[w][s]["link"] for s in G_.succ[w]]
         else:
@@ -143,7 +148,7 @@ class World:
             if self.declared(el):
                 self.gen[id(el)] = next(self.counter)
         for el in self.elements():
-            if el._states:
+            if el._states and isinstance(el, (self.M.Link, self.M.Origin)):  # Network.step advances origins and links
                 self.stepinfo[id(el)] = {"deps": {id(d): self.gen[id(d)] for d in self.deps_of(el)}, "desc": desc,
                                          "objmap": objmap, "opts": {}, "pars": pars}
 
@@ -158,6 +163,9 @@ class World:
 
     def op_replace_dest(self):
         self.net.add_destination(self.D1b, self.N[5])
+
+    def op_replace_dest_user(self):
+        self.net.add_destination(self.D1u, self.N[5])
 
     def op_replace_branch_dest(self):
         # only meaningful once the branch exists; otherwise it creates the branch with D2b directly
@@ -230,6 +238,9 @@ def observe_compile(W_, rec, ctxhist):
         return
     if compact != 0:
         return
+    if any(getattr(el, "_vf_user", False) for el in W_.elements()):
+        rec.count("value_checks_skipped_user_defined_kind")  # the by-name tables below know the library's kinds only
+        return
     # values: every element's result equals the reference on the topology of its last step
     M = W_.M
     desc_now, objmap_now = X.extract(M, W_.net)
@@ -283,7 +294,7 @@ def observe_compile(W_, rec, ctxhist):
 
 
 OPS = ("init", "init", "reinit_same", "stepel", "stepel", "netstep", "netstep", "netstep_alt", "compile", "compile", "compile",
-       "add_branch", "add_ramp", "replace_origin", "replace_link", "replace_dest", "replace_branch_dest")
+       "add_branch", "add_ramp", "replace_origin", "replace_link", "replace_dest", "replace_branch_dest", "replace_dest_user")
 
 
 def apply(W_, rec, op, arg=None):
@@ -347,6 +358,8 @@ def run(M, rec, tier, seed, k, n):
         # a state-less element that declares a disturbance, attached after the last step
         [("add_branch", None), ("netstep", None), ("replace_branch_dest", None), ("compile", None)],
         [("netstep", None), ("replace_dest", None), ("compile", None)],
+        [("replace_dest_user", None), ("netstep", None), ("compile", None)],
+        [("replace_dest_user", None), ("netstep", None), ("stepel", 4), ("compile", None)],
         [("add_branch", None), ("netstep", None), ("replace_branch_dest", None), ("init", 7), ("stepel", 2), ("compile", None)],
     ]
     for j, seq in enumerate(scripted):
